@@ -26,9 +26,9 @@ HOSTS = [("reg", "example.com"), ("idn", "bücher.example"), ("idn2", "例え.jp
 def plan(tier, seed):
     thorough = tier == "thorough"
     jobs = [{"variant": "c", "part": "kernel", "params": {}}, {"variant": "py", "part": "kernel", "params": {}}]
-    nr = 8 if thorough else 4
+    nr = 16 if thorough else 4
     for s in range(nr):
-        jobs.append({"variant": "c" if s % 2 else "py", "part": "random", "shard": s, "nshards": nr, "params": {"n": 100000 if thorough else 8000}})
+        jobs.append({"variant": "c" if s % 2 else "py", "part": "random", "shard": s, "nshards": nr, "params": {"n": 300000 if thorough else 8000}})
     return jobs
 
 
